@@ -44,7 +44,7 @@ fn create_and_store_machine_uuid() -> Result<(), std::io::Error> {
         | ((rand[1] as u32) << 16)
         | ((rand[11] as u32) << 24);
 
-    let uuid = format!("{:08X}{:04X}{:04X}", rand1, rand2, secs);
+    let uuid = format!("{:016X}{:08X}{:08X}", rand1, rand2, secs);
     println!("{}", uuid);
     // will be 128bits of data in 32 byte
     debug_assert_eq!(32, uuid.chars().count());
